@@ -212,7 +212,7 @@ theorem decodeRecords_ne_panic (hg : c.guard = true) (hs : c.Shrinks) (base firs
     rw [hrs] at hl
     refine bind_ne_panic (ih d.2 (by rw [hrs]; omega)) (fun t _ => by simp)
 
-theorem decodeBatchRecords_ne_panic (hg : c.guard = true) (hs : c.Shrinks) (batch : Bytes)
+theorem decodeBatchRecords_ne_panic (hg : c.guard = true) (hc0 : c.cnt32 = 0) (hs : c.Shrinks) (batch : Bytes)
     (hl : recSize * batch.length ≤ lim) : decodeBatchRecords (goMakeLim lim) c batch ≠ .panic := by
   have hrs : recSize = 112 := rfl
   unfold decodeBatchRecords
@@ -231,7 +231,7 @@ theorem decodeBatchRecords_ne_panic (hg : c.guard = true) (hs : c.Shrinks) (batc
       · simp
       · rename_i hpos
         rw [goSlice_ok (b := batch) (i := 61) (j := (batch.length : Int)) (by omega) (by omega) (by omega)]
-        simp only [bind_ok, hg, Bool.true_and]
+        simp only [bind_ok, hg, Bool.true_and, countExceeds_std hc0 (toS32_in _)]
         have hlen : ((batch.drop (61 : Int).toNat).take ((batch.length : Int) - 61).toNat).length = batch.length - 61 := by
           simp [List.length_take, List.length_drop]; omega
         split
@@ -245,7 +245,7 @@ theorem decodeBatchRecords_ne_panic (hg : c.guard = true) (hs : c.Shrinks) (batc
           simp only [hmk, bind_ok]
           exact decodeRecords_ne_panic hg hs _ _ _ _ (by rw [hlen]; rw [hrs] at hl ⊢; omega)
 
-theorem decodeBatches_ne_panic (hg : c.guard = true) (hs : c.Shrinks) (fuel : Nat) : ∀ (rem : Bytes),
+theorem decodeBatches_ne_panic (hg : c.guard = true) (hc0 : c.cnt32 = 0) (hs : c.Shrinks) (fuel : Nat) : ∀ (rem : Bytes),
     recSize * rem.length ≤ lim → decodeBatches (goMakeLim lim) c fuel rem ≠ .panic := by
   have hrs : recSize = 112 := rfl
   induction fuel with
@@ -266,14 +266,14 @@ theorem decodeBatches_ne_panic (hg : c.guard = true) (hs : c.Shrinks) (fuel : Na
         · rename_i hfl
           rw [goSlice_ok (b := rem) (i := 0) (j := ((12 + batchLen : Nat) : Int)) (by omega) (by omega) (by omega)]
           simp only [bind_ok]
-          refine bind_ne_panic (decodeBatchRecords_ne_panic hg hs _ ?_) (fun rs _ => ?_)
+          refine bind_ne_panic (decodeBatchRecords_ne_panic hg hc0 hs _ ?_) (fun rs _ => ?_)
           · simp only [List.length_take, List.length_drop]
             rw [hrs] at hl ⊢; omega
           · refine bind_ne_panic (ih _ ?_) (fun m _ => by simp)
             rw [List.length_drop]; rw [hrs] at hl ⊢; omega
 
 /-- `decodeSegment` of a guarded decoder never panics when the allocator admits 112 bytes per input byte -/
-theorem decodeSegment_ne_panic (hg : c.guard = true) (hs : c.Shrinks) (seg : Bytes)
+theorem decodeSegment_ne_panic (hg : c.guard = true) (hc0 : c.cnt32 = 0) (hs : c.Shrinks) (seg : Bytes)
     (hl : recSize * seg.length ≤ lim) : decodeSegment (goMakeLim lim) c seg ≠ .panic := by
   have hrs : recSize = 112 := rfl
   unfold decodeSegment
@@ -286,7 +286,7 @@ theorem decodeSegment_ne_panic (hg : c.guard = true) (hs : c.Shrinks) (seg : Byt
     · simp
     · rw [goSlice_ok (b := seg) (i := 32) (j := ((seg.length - 16 : Nat) : Int)) (by omega) (by omega) (by omega)]
       simp only [bind_ok]
-      exact decodeBatches_ne_panic hg hs _ _ (by
+      exact decodeBatches_ne_panic hg hc0 hs _ _ (by
         simp only [List.length_take, List.length_drop]
         rw [hrs] at hl ⊢; omega)
 
@@ -486,6 +486,9 @@ def wRecordCount31 : Bytes := [75, 65, 70, 83, 0, 1, 0, 0, 0, 0, 0, 0, 0, 0, 0, 
 def wIndexNeg : Bytes := [73, 68, 88, 0, 0, 1, 255, 255, 255, 255, 0, 0, 0, 1, 0, 0]
 def wIndexHuge : Bytes := [73, 68, 88, 0, 0, 1, 255, 255, 255, 255, 0, 0, 0, 1, 0, 0]
 
+/-- one minimal record, batch header claiming 306783379 (= ⌈2^31/7⌉) records: 7·count wraps negative in int32 -/
+def wCountWrap7 : Bytes := [75, 65, 70, 83, 0, 1, 0, 0, 0, 0, 0, 0, 0, 0, 0, 0, 0, 0, 0, 0, 0, 0, 0, 0, 0, 0, 0, 0, 0, 0, 0, 0, 0, 0, 0, 0, 0, 0, 0, 0, 0, 0, 0, 56, 0, 0, 0, 0, 2, 40, 148, 129, 181, 0, 0, 0, 0, 0, 0, 0, 0, 0, 0, 0, 0, 0, 0, 64, 0, 0, 0, 0, 0, 0, 0, 255, 255, 255, 255, 255, 255, 255, 255, 255, 255, 255, 255, 255, 255, 18, 73, 36, 147, 12, 0, 0, 0, 1, 1, 0, 82, 121, 161, 230, 0, 0, 0, 0, 0, 0, 0, 0, 69, 78, 68, 33]  -- 116 bytes
+
 /-! ### the property theorems -/
 
 /-- **C34 (iceberg).** For every byte string the iceberg `decodeSegment` returns records or an
@@ -493,20 +496,20 @@ error — no slice expression, `make` with a negative size, or allocation above 
 byte is reachable. -/
 theorem _root_.KafVerif.C34.decodeSegment_iceberg_total (bs : Bytes) (lim : Nat) (h : 112 * bs.length ≤ lim) :
     decodeSegment (goMakeLim lim) cfgIceberg bs ≠ .panic :=
-  decodeSegment_ne_panic rfl cfgIceberg_shrinks bs h
+  decodeSegment_ne_panic rfl rfl cfgIceberg_shrinks bs h
 
 /-- **C34 (sql).** Same for the sql decoder (32-bit varint reader, `readVarlong` for timestamps). -/
 theorem _root_.KafVerif.C34.decodeSegment_sql_total (bs : Bytes) (lim : Nat) (h : 112 * bs.length ≤ lim) :
     decodeSegment (goMakeLim lim) cfgSql bs ≠ .panic :=
-  decodeSegment_ne_panic rfl cfgSql_shrinks bs h
+  decodeSegment_ne_panic rfl rfl cfgSql_shrinks bs h
 
 /-- **C34 (bounded allocation).** With an allocator that refuses every request above
 `112·|bs|` bytes both decoders still never panic: no single `make` asks for more. -/
 theorem _root_.KafVerif.C34.decodeSegment_alloc_bounded (bs : Bytes) :
     decodeSegment (goMakeLim (112 * bs.length)) cfgIceberg bs ≠ .panic ∧
     decodeSegment (goMakeLim (112 * bs.length)) cfgSql bs ≠ .panic :=
-  ⟨decodeSegment_ne_panic rfl cfgIceberg_shrinks bs (Nat.le_refl _),
-   decodeSegment_ne_panic rfl cfgSql_shrinks bs (Nat.le_refl _)⟩
+  ⟨decodeSegment_ne_panic rfl rfl cfgIceberg_shrinks bs (Nat.le_refl _),
+   decodeSegment_ne_panic rfl rfl cfgSql_shrinks bs (Nat.le_refl _)⟩
 
 /-- **C34 (index parsers).** `ParseIndex` of the broker and `parseIndex` of both decoders. -/
 theorem _root_.KafVerif.C34.parseIndex_total (bs : Bytes) (lim : Nat) (h : 2 * bs.length ≤ lim) :
@@ -547,6 +550,42 @@ theorem _root_.KafVerif.C34.icebergOld_recordLength_unbounded :
 theorem _root_.KafVerif.C34.parseIndexOld_negative_count_panics :
     parseIndexIceberg (goMakeLim AllocMax) false wIndexNeg = .panic ∧
     parseIndexSql (goMakeLim AllocMax) false wIndexHuge = .panic := by decide
+
+/-- **The count check as coded cannot wrap.**  `int(recordCount) > len(recordsData)` widens the int32
+header field to the 64-bit `int`; for every int32 count and every length the model's check (stated
+with `wrap64`) is the mathematical comparison. -/
+theorem _root_.KafVerif.C34.count_guard_is_widened (rc : Int) (h : InI32 rc) (len : Nat) :
+    countExceeds cfgSql rc len = decide (rc > (len : Int)) ∧ countExceeds cfgIceberg rc len = decide (rc > (len : Int)) :=
+  ⟨countExceeds_std rfl h len, countExceeds_std rfl h len⟩
+
+/-- **The int32-product variant of the check admits unbounded counts.**  With
+`recordCount*7 > int32(len(recordsData))` computed in int32, every count in the band
+[⌈2^31/7⌉, ⌊(2^32−1)/7⌋] = [306783379, 613566756] makes the product wrap negative, so the check passes for
+every length; on the 116-byte witness the decoder then asks for 306783379·112 bytes (≈ 34 GB) and dies,
+while the decoder as coded answers `err`. -/
+theorem _root_.KafVerif.C34.int32_product_guard_admits_unbounded_count :
+    (∀ (rc : Int) (len : Nat), 306783379 ≤ rc → rc ≤ 613566756 → len < 2 ^ 31 → countExceeds cfgSqlCntMul7 rc len = false) ∧
+    decodeSegment (goMakeLim AllocMax) cfgSqlCntMul7 wCountWrap7 = .panic ∧
+    decodeSegment (goMakeLim AllocMax) cfgSql wCountWrap7 = .err := by
+  refine ⟨?_, by decide, by decide⟩
+  intro rc len h1 h2 h3
+  unfold countExceeds
+  have hk : cfgSqlCntMul7.cnt32 = 7 := rfl
+  simp only [hk, Nat.succ_ne_zero, if_false, decide_eq_false_iff_not, Int.not_lt]
+  have h7 : ((7 : Nat) : Int) = 7 := rfl
+  rw [h7]
+  have e1 : toU32 (rc * 7) = (rc * 7).toNat := by
+    unfold toU32; rw [Int.emod_eq_of_lt (by omega) (by omega)]
+  have e2 : toU32 (len : Int) = len := by
+    unfold toU32; rw [Int.emod_eq_of_lt (by omega) (by omega)]; simp
+  have e3 : (rc * 7).toNat % 2 ^ 32 = (rc * 7).toNat := Nat.mod_eq_of_lt (by omega)
+  have e4 : len % 2 ^ 32 = len := Nat.mod_eq_of_lt (by omega)
+  unfold wrap32 toS32
+  rw [e1, e2, e3, e4]
+  have h5 : ¬ (rc * 7).toNat < 2 ^ 31 := by omega
+  have h6 : len < 2 ^ 31 := h3
+  simp only [h5, h6, if_false, if_true]
+  omega
 
 /-! ### non-vacuity: the hypotheses are satisfiable and the fixed decoders answer `err` (not a
 vacuous `ok`) on the witnesses -/
